@@ -171,13 +171,22 @@ def clause_d(rep, F):
                 neg = not neg
             if not all(n in s for n in needles):
                 continue
-            if label == "repeated %YAML directive" and f.local_name(is_local(b["term"]["discr"]) if False else _root_local(f, b["term"]["discr"])) != "version_directive_received":
-                continue
+            if label == "repeated %YAML directive":
+                # the test is on a boolean flag of the function (whatever it is called): every definition of it is a constant
+                rl = _root_local(f, b["term"]["discr"])
+                dfs = cfg.defs_of_local(f, rl) if rl is not None else []
+                if rl is None or rl < 0 or f.locals[rl]["ty"] != "bool" or not dfs or not all(
+                        d[0] == "stmt" and d[3]["rv"]["k"] == "use" and isinstance(const_value(op_const(d[3]["rv"]["a"]) or {}), bool) for d in dfs):
+                    continue
             m, other = cfg.switch_edge_blocks(f, bi)
             if edge == "none":
                 tg = m.get(0, other)
                 if 0 not in m and 1 not in m:
                     continue
+                # `opt.ok_or(..)?` / `opt.ok_or_else(..)?`: the test is on the ControlFlow of Try::branch, whose Break edge (1) is the None case
+                if ee[0] == "discr" and ee[1][0] == "call" and (ee[1][1] or "").endswith("Try>::branch") and ee[1][2] and ee[1][2][0][0] == "call" \
+                        and (ee[1][2][0][1] or "").endswith(("Option::ok_or_else", "Option::ok_or")):
+                    tg = m.get(1, other)
             elif edge == "break":
                 tg = m.get(1, other)
             else:
